@@ -202,12 +202,12 @@ Qed.
 
 (* read-only open of given versions (s3db_changes, historic reads) under transport faults *)
 Theorem open_hist_fault_spec vsn when order corder vs ts b :
-  versions_ok_in c S b [PMerged; PCur] (apply_order_multi order vsn) vs ts ->
+  versions_ok_in c S b [PCur; PMerged] (apply_order_multi order vsn) vs ts ->
   spec b (open c true (Some vsn) when order corder)
        (fun h => view_fold c ts = Some (h_tree h) /\ h_ro h = true).
 Proof.
   intros Hok. unfold open. cbn [negb andb].
-  eapply spec_bind with (P := fun x => x = (apply_order_multi order vsn, [PMerged; PCur], false)).
+  eapply spec_bind with (P := fun x => x = (apply_order_multi order vsn, [PCur; PMerged], false)).
   { apply spec_ret. reflexivity. }
   intros x ->. cbn beta iota.
   eapply spec_bind; [apply (merge_loop_none_fault_spec _ _ _ _ _ _ Hok)|].
